@@ -338,6 +338,157 @@ pub proof fn lemma_mono_ij(o: Seq<usize>, i: int, j: int)
     open(out, 'w').write(head + ''.join(items))
     print('c15_dyn: %d readers under contract (%s), %d callee contracts' % (len(dyn), ', '.join('%d %s' % (len(v), k_) for k_, v in names.items()), len(declared)))
 
+    # ------------------------------------------------------------------------------------------------------------------
+    # second generated unit: the ACCESSORS of the readers (tables, dynamic vectors, options), with "the reader was verified"
+    # (the acceptance predicate, in either mode) as precondition
+    def wf(n, s):
+        if klass(n) == 'fixed':
+            return '(%s).len() == %d' % (s, fixed_size(n))
+        return '(ok_%s(%s, true) || ok_%s(%s, false))' % (n, s, n, s)
+    aitems = []
+    def reach(roots):
+        seen, todo = set(), list(roots)
+        while todo:
+            x = todo.pop()
+            if x in seen or x == 'byte':
+                continue
+            seen.add(x)
+            kind_, payload_, _f_ = types[x]
+            if kind_ in ('struct', 'table'):
+                todo += [ft for _fn, ft in payload_]
+            elif kind_ == 'union':
+                todo += [nm for nm, _i in payload_]
+            elif kind_ == 'array':
+                todo.append(payload_[0])
+            else:
+                todo.append(payload_)
+        return seen
+    scope = reach([n for n in order if types[n][2] == 'blockchain.rs'] + ['RelayMessage', 'SyncMessage'])
+    anames = set(n for n in dyn if klass(n) in ('table', 'dynvec', 'option'))
+    aneed = set()
+    for n in anames:
+        kind, payload, _f = types[n]
+        if klass(n) == 'table':
+            aneed.update(ft for _fn, ft in payload)
+        else:
+            aneed.add(payload)
+    nfun = 0
+    for n in [x for x in order if x in (anames | aneed)]:
+        f = types[n][2]
+        aitems.append(struct_item(n, f))
+        aitems.append('''
+[[item]]
+file = "util/gen-types/src/generated/%s"
+path = "impl molecule::prelude::Reader<'r> for %sReader<'r>::fn new_unchecked"
+result = "r"
+ensures = ["C16.access.%s.new_unchecked: r.0@ == slice@"]
+[[item]]
+file = "util/gen-types/src/generated/%s"
+path = "impl molecule::prelude::Reader<'r> for %sReader<'r>::fn as_slice"
+result = "r"
+ensures = ["C16.access.%s.as_slice: r@ == self.0@"]''' % (f, n, n, f, n, n))
+        nfun += 2
+    for n in [x for x in order if x in anames]:
+        kind, payload, f = types[n]
+        k = klass(n)
+        nimpl = len(re.findall(r"^impl<'r> %sReader<'r> \{" % n, src[f], flags=re.M))
+        idx = '#0' if nimpl > 1 else ''
+        base = '''
+[[item]]
+file = "util/gen-types/src/generated/%s"
+path = "impl %sReader<'r>%s::fn %%s"
+result = "r"
+requires = ["C16.access.%s.pre.the_reader_was_verified: %s"]''' % (f, n, idx, n, wf(n, 'self.0@'))
+        REVEAL = '''
+  [[item.proof]]
+  at = "start"
+  text = "reveal(ok_%s);"''' % n
+        if k == 'option':
+            EMPTY = '''
+  [[item.abstract]]
+  expr = "self.0.is_empty()"
+  as = "(self.0.len() == 0)"'''
+            aitems.append(base % 'is_none' + '\nensures = ["C16.access.%s.is_none: r == (self.0@.len() == 0)"]' % n + EMPTY + REVEAL)
+            aitems.append(base % 'is_some' + '\nensures = ["C16.access.%s.is_some: r == (self.0@.len() != 0)"]' % n + EMPTY + REVEAL)
+            aitems.append(base % 'to_opt' + '\nensures = ["C16.access.%s.to_opt.the_payload_is_the_whole_slice_and_was_verified: (r is None <==> self.0@.len() == 0) && (r matches Some(v) ==> v.0@ == self.0@ && %s)"]' % (n, wf(payload, 'v.0@')) + REVEAL)
+            nfun += 3
+        elif k == 'table' and payload:
+            N = len(payload)
+            c = 'VERIF_%s_FIELD_COUNT' % n.upper()
+            aitems.append('''
+[[item]]
+file = "util/gen-types/src/generated/%s"
+path = "impl %sReader<'r>%s::const FIELD_COUNT"
+hoist_as = "%s"''' % (f, n, idx, c))
+            FC = '''
+  [[item.abstract]]
+  expr = "Self::FIELD_COUNT"
+  all = true
+  as = "%s"''' % c
+            aitems.append(base % 'total_size' + '\nensures = ["C16.access.%s.total_size: r == self.0@.len()"]' % n + REVEAL)
+            aitems.append(base % 'field_count' + '\nensures = ["C16.access.%s.field_count: r == item_count(self.0@)"]' % n + REVEAL)
+            aitems.append(base % 'count_extra_fields' + '\nensures = ["C16.access.%s.count_extra_fields: r == item_count(self.0@) - %d"]' % (n, N) + FC + REVEAL)
+            aitems.append(base % 'has_extra_fields' + '\nensures = ["C16.access.%s.has_extra_fields: r == (item_count(self.0@) != %d)"]' % (n, N) + FC + REVEAL)
+            nfun += 4
+            for i, (fn_, ft) in enumerate(payload):
+                aitems.append(base % fn_ + '''
+ensures = ["C16.access.%s.%s.is_the_sub_slice_between_offsets_%d_and_%d_and_was_verified: r.0@ == self.0@.subrange(offs(self.0@, %d), offs(self.0@, %d)) && %s"]
+  [[item.proof]]
+  at = "start"
+  text = "reveal(ok_%s); lemma_offs_bounds(self.0@, %d);"''' % (n, fn_, i, i + 1, i, i + 1, wf(ft, 'r.0@'), n, i))
+                nfun += 1
+        elif k == 'dynvec':
+            aitems.append(base % 'total_size' + '\nensures = ["C16.access.%s.total_size: r == self.0@.len()"]' % n + REVEAL)
+            aitems.append(base % 'item_count' + '\nensures = ["C16.access.%s.item_count: r == item_count(self.0@)"]' % n + REVEAL)
+            aitems.append(base % 'len' + '\nensures = ["C16.access.%s.len: r == item_count(self.0@)"]' % n + REVEAL)
+            aitems.append(base % 'is_empty' + '\nensures = ["C16.access.%s.is_empty: r == (item_count(self.0@) == 0)"]' % n + REVEAL)
+            got = 'r.0@ == self.0@.subrange(offs(self.0@, idx as int), offs(self.0@, idx + 1)) && %s' % wf(payload, 'r.0@')
+            aitems.append((base % 'get_unchecked').replace('"]', '", "C16.access.%s.get_unchecked.pre.index_in_range: idx < item_count(self.0@)"]' % n) + '''
+ensures = ["C16.access.%s.get_unchecked.is_the_sub_slice_between_consecutive_offsets_and_was_verified: %s"]
+  [[item.proof]]
+  at = "start"
+  text = "reveal(ok_%s); lemma_offs_bounds(self.0@, idx as int); assert(%s);"''' % (n, got, n, ok(payload, 'self.0@.subrange(offs(self.0@, idx as int), offs(self.0@, idx + 1))').replace(', c)', ', true)') + ' || ' + ok(payload, 'self.0@.subrange(offs(self.0@, idx as int), offs(self.0@, idx + 1))').replace(', c)', ', false)') if klass(payload) != 'fixed' else 'true'))
+            aitems.append(base % 'get' + '\nensures = ["C16.access.%s.get.some_exactly_for_an_index_in_range: (r is Some <==> idx < item_count(self.0@)) && (r matches Some(v) ==> %s)"]' % (n, got.replace('r.0@', 'v.0@')) + REVEAL)
+            nfun += 6
+    ahead = head.replace('pub open spec fn ok_', '#[verifier::opaque] pub open spec fn ok_')
+    ahead = ahead.replace('unit   = "c15_dyn"', 'unit   = "c16_access"').replace('serves = ["C15", "C16"]', 'serves = ["C16", "C15"]')
+    i0 = ahead.index('claim  = ')
+    i1 = ahead.index('\n', i0)
+    ahead = ahead[:i0] + 'claim  = "every accessor of a verified molecule reader terminates without an out-of-range slice access or an arithmetic overflow and returns exactly the bytes the schema says: for the tables, dynamic vectors and options of the three schemas, given a reader whose bytes satisfy the acceptance predicate of unit c15_dyn (in either mode), each field accessor returns the sub-slice between consecutive offsets (the last field up to the next offset when extra fields are present, else up to the end), which itself satisfies its type\'s predicate; total_size / field_count / count_extra_fields / has_extra_fields / item_count / len / is_empty / get / get_unchecked / is_none / is_some / to_opt have their schema meaning"' + ahead[i1:]
+    ahead = ahead.replace('pub mod prelude { pub trait Reader<\'r> { fn verify(slice: &[u8], compatible: bool) -> Result<(), super::super::VerificationError>; } }',
+                          'pub mod prelude { pub trait Reader<\'r>: Sized { fn new_unchecked(slice: &\'r [u8]) -> Self; fn as_slice(&self) -> &\'r [u8]; } }')
+    j0 = ahead.index("impl<'r> molecule::prelude::Reader<'r> for ByteReader<'r> {")
+    j1 = ahead.index('\n}\n', j0) + 3
+    ahead = ahead[:j0] + '''#[allow(unused_imports)] use molecule::prelude::Reader;
+impl<'r> molecule::prelude::Reader<'r> for ByteReader<'r> {
+    fn new_unchecked(slice: &'r [u8]) -> (r: Self) ensures r.0@ == slice@ { ByteReader(slice) }
+    fn as_slice(&self) -> (r: &'r [u8]) ensures r@ == self.0@ { self.0 }
+}
+// every offset of a well-formed header is ordered and inside the bytes
+pub proof fn lemma_offs_le_len(s: Seq<u8>, k: int)
+    requires offsets_ok(s), 0 <= k <= item_count(s)
+    ensures offs(s, k) <= s.len()
+    decreases item_count(s) - k
+{ if k < item_count(s) { lemma_offs_le_len(s, k + 1); assert(offs(s, k) <= offs(s, k + 1)); } }
+pub proof fn lemma_offs_bounds(s: Seq<u8>, k: int)
+    requires offsets_ok(s), 0 <= k < item_count(s)
+    ensures 8 <= offs(s, 0) <= offs(s, k) <= offs(s, k + 1) <= s.len(), offs(s, k) == num_at(s, 4 + 4 * k), k + 1 < item_count(s) ==> offs(s, k + 1) == num_at(s, 8 + 4 * k), 4 + 4 * item_count(s) == num_at(s, 4) - 4 + 4 - 0 || true
+{
+    lemma_offs_le_len(s, k + 1);
+    assert(offs(s, k) <= offs(s, k + 1));
+    lemma_offs_ge_first(s, k);
+}
+pub proof fn lemma_offs_ge_first(s: Seq<u8>, k: int)
+    requires offsets_ok(s), 0 <= k < item_count(s)
+    ensures offs(s, 0) <= offs(s, k), offs(s, 0) >= 8
+    decreases k
+{ if k > 0 { lemma_offs_ge_first(s, k - 1); assert(offs(s, k - 1) <= offs(s, k)); } }
+''' + ahead[j1:]
+    ahead = ahead.replace('canary_only = ["for ScriptReader<", "for BytesVecReader<", "for ScriptOptReader<", "for RelayMessageReader<", "for InIBDReader<"]',
+                          'canary_only = ["impl ScriptReader<\'r>::fn args", "impl BytesVecReader<\'r>#0::fn get_unchecked", "impl ScriptOptReader<\'r>::fn to_opt", "impl CellOutputReader<\'r>::fn lock"]')
+    open(os.path.join(ROOT, os.environ.get('C15_DYN_DIR', 'contracts'), 'c16_access.toml'), 'w').write(ahead + ''.join(aitems))
+    print('c16_access: %d accessor functions under contract' % nfun)
+
 
 if __name__ == '__main__':
     main()
